@@ -56,6 +56,9 @@ def run(ctx):
     n = 700 if ctx.tier == "quick" else 30000
     tagged = g.vectors(n)
     vectors = [v for _, v in tagged]
+    # ORDER BY keys that begin with a number: a position, or (an arithmetic operator follows) an expression
+    vectors += [["name, size from t order by %s" % k] for k in ("1", "2 desc", "3", "0", "1 + size", "10 - length(name) desc", "2 * size, 1", "1 +", "1 + + size", "2 - 1", "1 desc, 2 * size",
+                                                                "1 mod 2", "1 plus size", "00 + size", "18446744073709551616 + size", "1.5 + size", "1,2", "1 , 2 - size", "-1 + size")]
     kinds = collections.Counter(k for k, _ in tagged)
     st = dict(agreed=0, distinct=set(), samples=[], hist=collections.Counter())
     # ---- (1) lexer + parser: the real code (harness) vs the Gallina model, outcome and AST ----
